@@ -91,8 +91,13 @@ def gen_item_answers(rng, pal, nmax=4, keys=None):
             d['grade_decimal'] = rng.choice(pal)
         if rng.random() < 0.5:
             d['msg'] = rng.choice(MSGS)
-        if rng.random() < 0.15:
+        if rng.random() < 0.3:
             d['ok'] = rng.choice([True, False, 'partial', 'computed'])
+            if rng.random() < 0.5:
+                # an author who writes only `ok`: the credit stays at its default (1) and `ok` is kept as written -- the two fields then disagree
+                d.pop('grade_decimal', None)
+                if rng.random() < 0.5:
+                    d.pop('msg', None)
         out.append(d)
     return tuple(out) if (n > 1 or rng.random() < 0.5) else out[0]
 
